@@ -1,6 +1,7 @@
 // Command xfer runs download scenarios (real leeching torrent.Session, recording in-memory storage,
-// scripted peers / web seeds with adversarial policies, stop/start at gated points) and records the
-// abstract event trace judged by Trace_Transfer.tla (properties C01 and C10).
+// scripted peers / web seeds with adversarial policies, stop/start at gated points, injected disk-write faults,
+// magnet start (ut_metadata) into empty or pre-filled storage, damage + Verify + Start after completion) and
+// records the abstract event trace judged by Trace_Transfer.tla (properties C01 and C10).
 //
 //	xfer run -scenarios s.ndjson -out trace.ndjson     (child: prints "BEGIN <id>" / "END <id>" markers)
 package main
@@ -8,11 +9,16 @@ package main
 import (
 	"bufio"
 	"bytes"
+	"encoding/hex"
 	"encoding/json"
+	"errors"
 	"flag"
 	"fmt"
+	"math/rand"
 	"net"
 	"os"
+	"strconv"
+	"strings"
 	"sync"
 	"sync/atomic"
 	"time"
@@ -32,6 +38,9 @@ type PeerSpec struct {
 	Listen      bool   `json:"listen"`
 	NoFast      bool   `json:"noFast"`
 	Sole        bool   `json:"sole"` // connected alone first; ban expected for corrupting policies
+	// Meta (magnet scenarios): "" = offers ut_metadata and serves it, "no" = does not offer it,
+	// "stall" = offers it (metadata_size advertised), receives the requests and never answers, stays connected
+	Meta string `json:"meta"`
 }
 
 type WsSpec struct {
@@ -42,7 +51,7 @@ type WsSpec struct {
 type Timing struct {
 	When string `json:"when"` // "write-enter"
 	N    int    `json:"n"`
-	Do   string `json:"do"` // "stopstart"
+	Do   string `json:"do"` // "stopstart" | "fail" (the N-th storage write returns an I/O error; Start again after the torrent stopped)
 }
 
 type Scenario struct {
@@ -61,6 +70,16 @@ type Scenario struct {
 	BadHashPiece int `json:"badHashPiece"`
 	BadHashPos   int `json:"badHashPos"`
 	BadHash      bool `json:"badHash"`
+	// Magnet: the torrent is added with Session.AddURI(magnet link); peers serve the metadata (ut_metadata)
+	Magnet bool `json:"magnet"`
+	// Prefill: content of the torrent's storage before it is added: "" / "none" (empty), "partial" (first half of the pieces
+	// right, the rest foreign bytes), "onebad" (all right but one piece), "full", "zeros" (files exist, all zero),
+	// "somefiles" (every second file present and right, the others absent)
+	Prefill string `json:"prefill"`
+	// After: "damage_verify_start" = after completion: Stop, damage piece DamagePiece in storage, Verify, Start;
+	// the piece must be found missing and fetched again (completion expected a second time)
+	After       string `json:"after"`
+	DamagePiece int    `json:"damagePiece"`
 }
 
 var (
@@ -77,7 +96,105 @@ func layoutByName(name string, unit int) (vh.Layout, bool) {
 	if name == "padwhole" {
 		return vh.PadWholeLayout(unit), true
 	}
+	// "many<N>" / "manymulti<N>": N full pieces of 16*unit bytes (256 KiB for unit 16384) plus a short last piece, so that a
+	// web-seed request (5% of the pieces) spans several pieces; the multi-file form has file boundaries inside pieces.
+	for _, pre := range []string{"manymulti", "many"} {
+		if !strings.HasPrefix(name, pre) {
+			continue
+		}
+		n, err := strconv.Atoi(name[len(pre):])
+		if err != nil || n < 2 || n > 400 {
+			return vh.Layout{}, false
+		}
+		pl := int64(16 * unit)
+		total := int64(n)*pl + 777
+		if pre == "many" {
+			return vh.Layout{Name: name, PieceLen: int(pl), Files: []vh.FileSpec{{Length: total}}}, true
+		}
+		parts := []int64{total * 3 / 10, total / 10, 1, total / 4}
+		files := []vh.FileSpec{}
+		rest := total
+		for i, ln := range parts {
+			ln += int64(i) * 1013 // boundaries inside pieces
+			files = append(files, vh.FileSpec{Path: []string{fmt.Sprintf("f%d.bin", i)}, Length: ln})
+			rest -= ln
+		}
+		files = append(files, vh.FileSpec{Path: []string{"sub", "last.bin"}, Length: rest})
+		return vh.Layout{Name: name, PieceLen: int(pl), Files: files}, true
+	}
 	return vh.Layout{}, false
+}
+
+// prefill stores a (partly right, partly wrong) copy of the torrent's files before the torrent is added.
+func prefill(st *vh.MemStorage, tor *vh.Torrent, mode string, seed int64) {
+	if mode == "" || mode == "none" {
+		return
+	}
+	rng := rand.New(rand.NewSource(seed ^ 0x5eed))
+	np := tor.NumPieces
+	wrong := func(i int) bool { return false }
+	switch mode {
+	case "partial":
+		wrong = func(i int) bool { return i >= (np+1)/2 }
+	case "onebad":
+		k := rng.Intn(np)
+		wrong = func(i int) bool { return i == k }
+	case "zeros":
+		wrong = func(i int) bool { return true }
+	}
+	flat := append([]byte(nil), tor.Data...)
+	for i := 0; i < np; i++ {
+		if !wrong(i) {
+			continue
+		}
+		seg := flat[int64(i)*int64(tor.PieceLen) : int64(i)*int64(tor.PieceLen)+int64(tor.PieceLenOf(i))]
+		for j := range seg {
+			if mode == "zeros" {
+				seg[j] = 0
+			} else {
+				seg[j] ^= byte(1 + rng.Intn(255))
+			}
+		}
+	}
+	nf := 0
+	for fi, f := range tor.Files {
+		if f.Pad {
+			continue
+		}
+		nf++
+		if mode == "somefiles" && nf%2 == 0 {
+			continue
+		}
+		st.Put(tor.StoragePath(fi), flat[tor.FileStart(fi):tor.FileStart(fi)+f.Length])
+	}
+}
+
+// damage flips bytes of piece p in storage (while the torrent is stopped); returns false if the piece has no stored byte.
+func damage(st *vh.MemStorage, tor *vh.Torrent, p int) bool {
+	ps := int64(p) * int64(tor.PieceLen)
+	pe := ps + int64(tor.PieceLenOf(p))
+	done := false
+	for fi, f := range tor.Files {
+		if f.Pad {
+			continue
+		}
+		lo, hi := max(ps, tor.FileStart(fi)), min(pe, tor.FileStart(fi)+f.Length)
+		if lo >= hi {
+			continue
+		}
+		d := st.FileBytes(tor.StoragePath(fi))
+		if d == nil {
+			continue
+		}
+		a := lo - tor.FileStart(fi)
+		if a < int64(len(d)) {
+			d[a] ^= 0x3c
+			d[min(int64(len(d)), hi-tor.FileStart(fi))-1] ^= 0xc3
+			st.Put(tor.StoragePath(fi), d)
+			done = true
+		}
+	}
+	return done
 }
 
 func haveFn(kind string, n int) func(int) bool {
@@ -95,8 +212,20 @@ func haveFn(kind string, n int) func(int) bool {
 }
 
 // policy builds the SeederPolicy for a peer spec. sentBad records that a corrupt block was put on the wire.
-func policy(ps PeerSpec, tor *vh.Torrent, sentBad *atomic.Int64) *vh.SeederPolicy {
+func policy(ps PeerSpec, tor *vh.Torrent, sentBad *atomic.Int64, magnet bool) *vh.SeederPolicy {
 	pol := &vh.SeederPolicy{Have: haveFn(ps.Have, tor.NumPieces), NoFast: ps.NoFast}
+	if magnet && ps.Meta != "no" {
+		pol.Metadata = true
+		if ps.Meta == "stall" { // the requests are read and never answered; the connection stays open
+			pol.OnMsg = func(s *vh.Seeder, m vh.Msg) bool {
+				if m.ID == vh.MsgExtended && m.ExtID != 0 {
+					T.Emit(vh.Ev{"ev": "metastall", "conn": s.Name})
+					return true
+				}
+				return false
+			}
+		}
+	}
 	var mu sync.Mutex
 	served := 0
 	var held []vh.Msg
@@ -232,7 +361,7 @@ type runner struct {
 func (r *runner) addr() string { return fmt.Sprintf("127.0.0.1:%d", r.tr.Port()) }
 
 func (r *runner) connect(ps PeerSpec, sentBad *atomic.Int64) *vh.Seeder {
-	pol := policy(ps, r.tor, sentBad)
+	pol := policy(ps, r.tor, sentBad, r.sc.Magnet)
 	if ps.Listen {
 		ch := make(chan *vh.Seeder, 4)
 		l, err := vh.ListenSeeder(T, ps.Name, ps.IP, r.tor, pol, func(s *vh.Seeder) {
@@ -320,6 +449,8 @@ func run(sc Scenario, dir string) {
 		case "corrupt":
 			k := int64(w.K)
 			s.Corrupt = func(off int64) bool { return off == k }
+		case "stale": // an outdated copy: same names and sizes, every piece differs from the torrent's content
+			s.Corrupt = func(off int64) bool { return off%4096 == 11 }
 		case "error":
 			k := w.K
 			s.Status = func(n int) int {
@@ -342,6 +473,7 @@ func run(sc Scenario, dir string) {
 	for _, s := range wss {
 		s.Tor = r.tor
 	}
+	tmp = nil
 	tor := r.tor
 	cfg, err := vh.BaseConfig(dir, 8)
 	if err != nil {
@@ -356,18 +488,25 @@ func run(sc Scenario, dir string) {
 	if sc.Endgame > 0 {
 		cfg.EndgameMaxDuplicateDownloads = sc.Endgame
 	}
+	// the storage may hold a (partly right) copy before the torrent is added; the id is chosen here so that it can be filled first
+	r.id = fmt.Sprintf("xf%d", sc.ID)
+	prefill(r.prov.Store(r.id), tor, sc.Prefill, sc.Seed)
 	npl := make([]int, tor.NumPieces)
 	plen := make([]int, tor.NumPieces)
+	good0 := []int{}
 	for i := range npl {
 		npl[i] = tor.NonPadLen(i)
 		plen[i] = tor.PieceLenOf(i)
+		if sc.Prefill != "" && sc.Prefill != "none" && npl[i] > 0 && r.prov.Store(r.id).PieceClass(tor, i) == "good" {
+			good0 = append(good0, i)
+		}
 	}
 	peers := []vh.Ev{}
 	for _, p := range sc.Peers {
 		peers = append(peers, vh.Ev{"name": p.Name, "ip": p.IP, "policy": p.Policy, "have": p.Have, "sole": p.Sole})
 	}
 	T.Emit(vh.Ev{"ev": "init", "np": tor.NumPieces, "nonpad": npl, "plen": plen, "layout": sc.Layout, "unit": sc.Unit, "seq": sc.Seq,
-		"peers": peers, "nws": len(sc.Webseeds), "honest": sc.Honest, "total": tor.Total})
+		"peers": peers, "nws": len(sc.Webseeds), "honest": sc.Honest, "total": tor.Total, "magnet": sc.Magnet, "prefill": sc.Prefill, "good0": good0})
 
 	var sentBad atomic.Int64
 	// timing gates
@@ -375,8 +514,19 @@ func run(sc Scenario, dir string) {
 	gate := make(chan struct{})
 	var gateArmed atomic.Bool
 	var gated atomic.Bool
+	var faulted atomic.Bool
 	for _, tm := range sc.Timing {
-		if tm.When == "write-enter" {
+		if tm.When == "write-enter" && tm.Do == "fail" {
+			n := int64(tm.N)
+			r.prov.SetHook(func(phase, op, tid, name string, off int64, ln int) error {
+				if phase == "enter" && op == "write" && writeN.Add(1) == n {
+					faulted.Store(true)
+					T.Emit(vh.Ev{"ev": "gate", "what": "write-fault", "file": name, "off": off, "len": ln})
+					return errors.New("verif: injected I/O error (no space left on device)")
+				}
+				return nil
+			})
+		} else if tm.When == "write-enter" {
 			n := int64(tm.N)
 			gateArmed.Store(true)
 			r.prov.SetHook(func(phase, op, tid, name string, off int64, ln int) error {
@@ -401,19 +551,29 @@ func run(sc Scenario, dir string) {
 		panic(err)
 	}
 	r.sess = sess
-	tr, err := sess.AddTorrent(bytes.NewReader(tor.Bytes), &torrent.AddTorrentOptions{Sequential: sc.Seq})
+	var tr *torrent.Torrent
+	opt := &torrent.AddTorrentOptions{ID: r.id, Sequential: sc.Seq}
+	if sc.Magnet {
+		tr, err = sess.AddURI("magnet:?xt=urn:btih:"+hex.EncodeToString(tor.InfoHash[:]), opt)
+	} else {
+		tr, err = sess.AddTorrent(bytes.NewReader(tor.Bytes), opt)
+	}
 	if err != nil {
 		T.Emit(vh.Ev{"ev": "harness", "what": "add-failed", "err": err.Error()})
 		sess.Close()
 		return
 	}
-	r.tr, r.id = tr, tr.ID()
-	if !hub.Wait(r.id, 5*time.Second, func(s *torrent.VerifSnap) bool { return s.Acceptor && s.Status == "Downloading" }) {
+	r.tr = tr
+	// with existing data the torrent verifies first (Seeding at once if everything is there)
+	if !hub.Wait(r.id, 8*time.Second, func(s *torrent.VerifSnap) bool {
+		return s.Acceptor && (s.Status == "Downloading" || s.Status == "Downloading Metadata" || s.Status == "Seeding")
+	}) {
 		T.Emit(vh.Ev{"ev": "harness", "what": "not-downloading"})
 	}
 	complete := tr.NotifyComplete()
 	stopPoll := make(chan struct{})
 	var pollWG sync.WaitGroup
+	var pollMu sync.Mutex // held while storage is mutated behind the torrent's back: no Stats() in that window
 	pollWG.Add(1)
 	go func() { // Stats() while transferring: reported numbers are judged too
 		defer pollWG.Done()
@@ -422,16 +582,61 @@ func run(sc Scenario, dir string) {
 		for {
 			select {
 			case <-tk.C:
+				pollMu.Lock()
 				r.statsEvent()
+				pollMu.Unlock()
 			case <-stopPoll:
 				return
 			}
 		}
 	}()
 
+	reconnectHonest := func(suffix string) { // honest sources stay reachable: they connect again after a restart
+		for _, ps := range sc.Peers {
+			if ps.Policy == "honest" && !ps.Listen {
+				ps2 := ps
+				ps2.Name = ps.Name + suffix
+				if s := r.connect(ps2, &sentBad); s != nil {
+					r.mu.Lock()
+					r.seeds = append(r.seeds, s)
+					r.mu.Unlock()
+				}
+			}
+		}
+	}
+
 	// timing actions run concurrently with the peers
 	var timWG sync.WaitGroup
+	phaseDone := make(chan struct{}) // closed when the first completion wait is over
 	for _, tm := range sc.Timing {
+		if tm.When == "write-enter" && tm.Do == "fail" {
+			timWG.Add(1)
+			go func() {
+				defer timWG.Done()
+				for !faulted.Load() {
+					select {
+					case <-phaseDone:
+						return
+					case <-time.After(2 * time.Millisecond):
+					}
+				}
+				// the failed write stops the torrent with the error
+				ok := hub.Wait(r.id, 5*time.Second, func(s *torrent.VerifSnap) bool { return s.Status == "Stopped" })
+				e := vh.Ev{"ev": "faultstop", "ok": ok}
+				if sn := hub.Get(r.id); sn != nil {
+					e["lastErr"], e["status"] = sn.LastErr, sn.Status
+				}
+				T.Emit(e)
+				T.Emit(vh.Ev{"ev": "cmd", "op": "start"})
+				tr.Start()
+				hub.Wait(r.id, 5*time.Second, func(s *torrent.VerifSnap) bool {
+					return s.Acceptor && (s.Status == "Downloading" || s.Status == "Seeding")
+				})
+				T.Emit(vh.Ev{"ev": "cmd", "op": "restarted"})
+				time.Sleep(30 * time.Millisecond)
+				reconnectHonest("-r")
+			}()
+		}
 		if tm.When == "write-enter" && tm.Do == "stopstart" {
 			timWG.Add(1)
 			go func() {
@@ -454,17 +659,7 @@ func run(sc Scenario, dir string) {
 				close(gate)
 				T.Emit(vh.Ev{"ev": "cmd", "op": "restarted"})
 				time.Sleep(30 * time.Millisecond)
-				for _, ps := range sc.Peers { // honest sources stay reachable: they connect again after the restart
-					if ps.Policy == "honest" && !ps.Listen {
-						ps2 := ps
-						ps2.Name = ps.Name + "-r"
-						if s := r.connect(ps2, &sentBad); s != nil {
-							r.mu.Lock()
-							r.seeds = append(r.seeds, s)
-							r.mu.Unlock()
-						}
-					}
-				}
+				reconnectHonest("-r")
 			}()
 		}
 	}
@@ -530,21 +725,80 @@ func run(sc Scenario, dir string) {
 	if to == 0 {
 		to = 8 * time.Second
 	}
-	// a restart replaces the completion channel only if the torrent was re-created; NotifyComplete stays valid here
-	select {
-	case <-complete:
-		st := tr.Stats()
-		T.Emit(vh.Ev{"ev": "complete", "filesOK": r.prov.Store(r.id).Complete(tor), "status": st.Status.String(), "have": int(st.Pieces.Have)})
-	case <-time.After(to):
-		sn := hub.Get(r.id)
-		e := vh.Ev{"ev": "timeout", "what": "complete"}
-		if sn != nil {
-			e["status"], e["have"], e["peers"], e["downloads"] = sn.Status, len(sn.Have), sn.Peers, sn.Downloads
-			e["banned"] = sn.Banned
+	awaitComplete := func(complete <-chan struct{}) bool {
+		select {
+		case <-complete:
+			st := tr.Stats()
+			T.Emit(vh.Ev{"ev": "complete", "filesOK": r.prov.Store(r.id).Complete(tor), "status": st.Status.String(), "have": int(st.Pieces.Have)})
+			return true
+		case <-time.After(to):
+			sn := hub.Get(r.id)
+			e := vh.Ev{"ev": "timeout", "what": "complete"}
+			if sn != nil {
+				e["status"], e["have"], e["peers"], e["downloads"] = sn.Status, len(sn.Have), sn.Peers, sn.Downloads
+				e["banned"] = sn.Banned
+				e["hasInfo"], e["infoDownloads"], e["lastErr"] = sn.HasInfo, sn.InfoDownloads, sn.LastErr
+			}
+			T.Emit(e)
+			return false
 		}
-		T.Emit(e)
 	}
+	// a restart replaces the completion channel only if the torrent was re-created; NotifyComplete stays valid here
+	completed := awaitComplete(complete)
+	close(phaseDone)
 	timWG.Wait()
+
+	if completed && sc.After == "damage_verify_start" {
+		// completed torrent -> stopped -> a piece is damaged in storage -> Verify finds it -> Start must fetch it again
+		p := max(sc.DamagePiece, 0) % tor.NumPieces
+		for k := 0; k < tor.NumPieces && tor.NonPadLen(p) == 0; k++ {
+			p = (p + 1) % tor.NumPieces
+		}
+		T.Emit(vh.Ev{"ev": "cmd", "op": "stop"})
+		tr.Stop()
+		hub.Wait(r.id, 5*time.Second, func(s *torrent.VerifSnap) bool { return s.Status == "Stopped" })
+		pollMu.Lock()
+		var seq0 uint64
+		if sn := hub.Get(r.id); sn != nil {
+			seq0 = sn.Seq
+		}
+		damaged := damage(r.prov.Store(r.id), tor, p)
+		cls := make([]string, tor.NumPieces)
+		for i := range cls {
+			cls[i] = r.prov.Store(r.id).PieceClass(tor, i)
+		}
+		T.Emit(vh.Ev{"ev": "cmd", "op": "verify", "damaged": damaged, "piece": p})
+		tr.Verify()
+		// The loop has taken the command (it drops its bitfield before anything else), so from here on every claim is judged
+		// against the damaged storage. (Recorded after the command: until Verify the client cannot know about the damage.)
+		T.Emit(vh.Ev{"ev": "disk-mutate", "piece": p, "class": cls})
+		pollMu.Unlock()
+		verified := func(s *torrent.VerifSnap) bool {
+			return s.Seq > seq0 && s.Status == "Stopped" && !s.DoVerify && !s.Verifying && !s.Allocating && !s.BitfieldNil
+		}
+		okv := false
+		for try := 0; try < 200 && !okv; try++ { // stable: no verification started in the meantime
+			if !hub.Wait(r.id, 8*time.Second, verified) {
+				break
+			}
+			s1 := hub.Get(r.id).Seq
+			time.Sleep(40 * time.Millisecond)
+			sn := hub.Get(r.id)
+			okv = sn.Seq == s1 || verified(sn)
+		}
+		T.Emit(vh.Ev{"ev": "verified", "ok": okv})
+		complete2 := tr.NotifyComplete()
+		T.Emit(vh.Ev{"ev": "cmd", "op": "start"})
+		tr.Start()
+		hub.Wait(r.id, 5*time.Second, func(s *torrent.VerifSnap) bool {
+			return s.Acceptor && (s.Status == "Downloading" || s.Status == "Seeding")
+		})
+		T.Emit(vh.Ev{"ev": "cmd", "op": "restarted"})
+		time.Sleep(30 * time.Millisecond)
+		reconnectHonest("-v")
+		awaitComplete(complete2)
+	}
+
 	close(stopPoll)
 	pollWG.Wait()
 	r.statsEvent()
@@ -552,9 +806,11 @@ func run(sc Scenario, dir string) {
 	tr.Stop()
 	stopped := hub.Wait(r.id, 5*time.Second, func(s *torrent.VerifSnap) bool { return s.Status == "Stopped" })
 	T.Emit(vh.Ev{"ev": "stopped", "ok": stopped, "handles": r.prov.OpenHandles()})
+	r.mu.Lock()
 	for _, s := range r.seeds {
 		s.Close()
 	}
+	r.mu.Unlock()
 	for _, l := range r.lsn {
 		l.Close()
 	}
